@@ -205,6 +205,8 @@ class Driver:
                 self._start_lookup(h, type_, name, timeout, None, origin=lst.bid)
 
         lst = RecordingListener(self.w, h, op["id"], on_add)
+        if op.get("raise_once"):
+            lst.raise_once = set()
         self.listeners[(h.name, op["id"])] = lst
         kw = {}
         if op.get("delay") is not None:
